@@ -1,4 +1,5 @@
 """C17 — The HTTP server is a faithful store: what goes in comes out."""
+import json
 import os
 
 import common as C
@@ -9,7 +10,8 @@ def build(ctx):
     ctx.log("translate", out)
     if not ok:
         ctx.diag.append("translator failed: " + out[-300:])
-    C.prove(ctx, ["Props/C17.v"], ["Oblig/C17Obl.v", "Proto/ServerFacts.v", "Model/RouteTable.v"])
+    C.prove(ctx, ["Props/C17.v", "Props/C17Lib.v"],
+            ["Oblig/C17Obl.v", "Proto/ServerFacts.v", "Model/RouteTable.v", "Oblig/C17LibObl.v", "Proto/ServerLibFacts.v"])
     ok, out = C.build_harness()
     ctx.log("go build", out)
     if not ok:
@@ -19,6 +21,10 @@ def build(ctx):
     ctx.log("ocaml", out[-3000:])
     if not ok:
         ctx.diag.append("extracted model does not build: " + out[-600:])
+    ok, out = C.build_ocaml("c17lib")
+    ctx.log("ocaml c17lib", out[-3000:])
+    if not ok:
+        ctx.diag.append("extracted library interpretation (ServerLib) does not build: " + out[-600:])
     return True
 
 
@@ -40,9 +46,49 @@ def oracle(ctx, n, sub="oracle"):
     return summ
 
 
+def lib_oracle(ctx, n, sub="lib"):
+    """phase 2: the discharged library claims asked of the code — every stored object photographed
+    (JSON tree + record lines) before and after every request, per request class"""
+    d = os.path.join(ctx.rundir, sub)
+    os.makedirs(d, exist_ok=True)
+    rc, out = C.sh([os.path.join(C.BIN, "c17"), "lib", "-out", d, "-n", str(n), "-corpus", corpus()], timeout=3000)
+    ctx.log(sub, out[-2000:])
+    if rc != 0:
+        ctx.diag.append("stored-object check crashed rc=%d: %s" % (rc, out[-300:]))
+    before = len(ctx.fails)
+    summ = ctx.read_jsonl(os.path.join(d, "lib.jsonl"))
+    for f in ctx.fails[before:]:
+        f["input"] = f.get("case")
+    return summ
+
+
+def lib_correspondence(ctx, n):
+    """phase 2: extracted lcreate/lcontents/lbuild/lvalidate/lmarshal/lflatsrc/lsegsrc/lbal (ServerLib.v)
+    against the service layer on the same object, projected onto the model's view"""
+    d = os.path.join(ctx.rundir, "libcorr")
+    os.makedirs(d, exist_ok=True)
+    rc, out = C.sh([os.path.join(C.BIN, "c17"), "libcorr", "-out", d, "-n", str(n)], timeout=3000)
+    ctx.log("libcorr", out[-1000:])
+    drv = os.path.join(C.BUILD, "ocaml", "c17lib", "driver")
+    if rc != 0 or not os.path.exists(drv):
+        ctx.diag.append("library correspondence could not run: " + out[-300:])
+        return
+    rc, out = C.sh("%s %s > %s" % (drv, os.path.join(d, "libcases.txt"), os.path.join(d, "libmodel.txt")), timeout=3000)
+    if rc != 0:
+        ctx.diag.append("extracted library interpretation crashed: " + out[-300:])
+        return
+    ctx.compare("service layer on the stored object vs extracted ServerLib (C05/C14 views)",
+                os.path.join(d, "libmodel.txt"), os.path.join(d, "libimpl.txt"), os.path.join(d, "libcases.txt"))
+    try:
+        ctx.cov["library_correspondence_classes"] = json.load(open(os.path.join(d, "libcorr.json")))["distribution"]
+    except (OSError, ValueError, KeyError):
+        pass
+
+
 def search(ctx, factor):
     before = len(ctx.fails)
     oracle(ctx, ctx.scale(1000, 4000) * factor, "search")
+    lib_oracle(ctx, ctx.scale(300, 1500) * factor, "search-lib")
     found = ctx.fails[before:]
     del ctx.fails[before:]
     return found
@@ -95,17 +141,25 @@ def correspondence(ctx, n):
 
 def run(ctx):
     ctx.search = search
-    ctx.trusted += ["route/status table analysis of translator/routes.go (syntactic: the r.Methods(..).Path(..).Handler(httptransport.NewServer(..)) statements of MakeHTTPHandler, the switch of codeFrom, the last return of encodeTextResponse)",
+    ctx.trusted += ["projection of an *ach.File onto the views of Proto/ServerLib.v and the label extraction by pointer identity (harness/cmd/c17/libcorr.go); the field classes File.Create / Batch.build are modelled to write (harness/cmd/c17/lib.go)",
+                    "route/status table analysis of translator/routes.go (syntactic: the r.Methods(..).Path(..).Handler(httptransport.NewServer(..)) statements of MakeHTTPHandler, the switch of codeFrom, the last return of encodeTextResponse)",
                     "term evaluator of harness/cmd/c17 (replays the library calls a term names on a freshly parsed copy; re-implements the few statements of service.CreateBatch/BalanceFile and repository.DeleteBatch)",
                     "gorilla/mux routing, go-kit transport and encoding/json of responses are exercised through httptest, not modelled"]
     ctx.assumptions += ["library outcomes (flatten/segment/balance succeeded, credit/debit half empty, batch id already present, batch body decodes, id read from a JSON body) enter the model as labels of the request; the theorems hold for every labelling and the correspondence run checks each label against the library on an independent copy",
                         "records shared between a derived file and its source (File.FlattenBatches reuses the source's batch headers and entry pointers, SegmentFile the entries) are not modelled: generated histories send no flatten/segment/balance to such files, no batch edits to flatten relatives and no Create-running endpoint to a flatten source (docs/C17.md)",
-                        "C17_unchanged_if_tabulated takes idempotence of File.Create on the stored value (C05) and purity of FlattenBatches/SegmentFile on a tabulated receiver (C14) as hypotheses; the real FlattenBatches violates the latter (known finding)"]
+                        "C17_unchanged_if_tabulated takes idempotence of File.Create on the stored value (C05) and purity of FlattenBatches/SegmentFile on a tabulated receiver (C14) as hypotheses; Props/C17Lib.v discharges them for the concrete interpretation of Proto/ServerLib.v (stored value = C05's Offsets.file x C14's Purity.file x ID x the validateOpts bits File.Create reads): Create idempotent and read-only calls pure for every value; FlattenBatches/SegmentFile leave the receiver alone only when its entries carry the batch ODFI (Batch.Create ran) and no mixed IAT batch is segmented — refuted otherwise (known findings)",
+                        "ServerLib's views leave out Addenda05 / IAT addenda sequence numbers and ADVEntryDetail.SequenceNumber (rewritten through the same shared entry pointers) and the ADV controls: those are covered by the stored-object photographs of `c17 lib` only; library outcomes outside the views are labels, arbitrary in the theorems, measured on an independent copy / by pointer identity in the correspondence"]
     if not build(ctx):
         return
     correspondence(ctx, ctx.scale(1500, 15000))
+    lib_correspondence(ctx, ctx.scale(2000, 30000))
     summ = oracle(ctx, ctx.scale(2500, 20000))
     ctx.add_summary(summ, "httptest server vs ideal map replayed with the library")
+    lsum = lib_oracle(ctx, ctx.scale(700, 8000))
+    ctx.add_summary(lsum, "stored objects before/after every request")
+    if lsum:
+        ctx.cov["stored_object_changes_by_request"] = lsum.get("changes", {})
+        ctx.cov["stored_object_change_samples"] = lsum.get("change_samples", {})
     if summ and "pools" in summ:
         ctx.cov["pools"] = summ["pools"]
     if ctx.tier == "thorough":
